@@ -247,8 +247,19 @@ def check(res, tr, timers, resolved):
     def burst_of(a_):
         i_ = a_["first"]["idx"]
         return sum(1 for b_ in bounds if b_ <= i_)
+    call_idx = [(i, ev[1]) for i, ev in enumerate(log) if ev[0] == "produce_call"]
+
+    def call_time(a_):
+        """When the producer made the client call this request belongs to: the earliest moment the client's timeout
+        for it can have started (the frame may have been written much later, once a connection came up)."""
+        t_ = a_["first"]["t"]
+        for i_, tc in call_idx:
+            if i_ <= a_["first"]["idx"]:
+                t_ = tc
+        return min(t_, a_["first"]["t"])
     for a_ in attempts:
         a_["burst"] = burst_of(a_)
+        a_["call_t"] = call_time(a_)
     # reach: bursts (client calls) in which one payload was acknowledged while a sibling failed
     per_burst = {}
     for a_ in attempts:
@@ -256,7 +267,7 @@ def check(res, tr, timers, resolved):
         got = False
         for e2 in ev_by.get(a_["corr"], []):
             td2 = delivered.get((e2["conn"], e2["corr"]))
-            if e2["replied"] == "sent" and td2 is not None and td2 < a_["first"]["t"] + T - 1e-9:
+            if e2["replied"] == "sent" and td2 is not None and td2 < a_["call_t"] + T - 1e-9:
                 got = True
                 for r2 in e2["result"] or []:
                     per_burst[a_["burst"]][0 if r2["error"] == 0 else 1] += 1
@@ -299,7 +310,7 @@ def check(res, tr, timers, resolved):
         got_ack = None
         for e in evs:
             td = delivered.get((e["conn"], e["corr"]))
-            if e["replied"] == "sent" and td is not None and td < a["first"]["t"] + T - 1e-9:
+            if e["replied"] == "sent" and td is not None and td < a["call_t"] + T - 1e-9:
                 got_ack = (e, td)
                 break
         if got_ack is None or cfg["acks"] == 0:
